@@ -36,6 +36,7 @@ use crate::core::util::test::test_manager::test::TestManager;
 /// rejected block leaves the tip where it was. Scenario: a 3-block fork overtakes a 2-block chain segment, its first two
 /// blocks are valid and its tip is invalid.
 #[test]
+#[serial_test::serial]
 fn failed_reorg_terminates_and_restores_tip() {
     let (tx_done, rx_done) = std::sync::mpsc::channel::<(SaitoHash, SaitoHash)>();
     std::thread::spawn(move || {
@@ -68,6 +69,52 @@ fn failed_reorg_terminates_and_restores_tip() {
             use std::io::Write;
             let _ = writeln!(std::io::stderr(), "WITNESS: Blockchain::add_block did not return within 40 s: 2-block chain [b3,b2] vs 3-block fork [f4,f3,f2] from the same parent, f2 and f3 valid, f4 invalid (burnfee off by one, correctly signed) — the wind/unwind loop of Blockchain::validate re-winds the new chain forever");
             let _ = writeln!(std::io::stderr(), "test core::consensus::blockchain::verif_replay::failed_reorg_terminates_and_restores_tip ... FAILED");
+            std::process::exit(3);
+        }
+    }
+}
+
+/// C04: a reorganisation attempt that cannot go through because a block of the current chain carries an operator
+/// checkpoint (Blockchain::add_blocks_from_mempool sets Block::has_checkpoint from a checkpoint file) must leave the
+/// tip, the chain index and the spendable set where they were. Scenario: chain b1-b2-b3-b4 with the checkpoint on b3,
+/// a valid fork b1-f2-f3-f4-f5 overtakes it.
+#[test]
+#[serial_test::serial]
+fn reorg_across_a_checkpoint_leaves_no_trace() {
+    let (tx_done, rx_done) = std::sync::mpsc::channel::<(SaitoHash, SaitoHash, u64, u64, bool, usize, usize)>();
+    std::thread::spawn(move || {
+        let rt = tokio::runtime::Builder::new_current_thread().enable_all().build().unwrap();
+        rt.block_on(async move {
+            let mut t = TestManager::default();
+            t.initialize(100, 200_000_000_000_000).await;
+            let (b1, ts) = { let bc = t.blockchain_lock.read().await; let b = bc.get_latest_block().unwrap(); (b.hash, b.timestamp) };
+            let mut prev = b1; let mut main = vec![];
+            for k in 1..=3u64 { let mut b = t.create_block(prev, ts + 120000 * k, 0, 0, 0, true).await; b.generate().unwrap(); prev = b.hash; main.push(b.hash); t.add_block(b).await; }
+            let b4h = prev;
+            assert_eq!(t.blockchain_lock.read().await.get_latest_block_hash(), b4h);
+            let mut prev = b1; let mut fork = vec![];
+            for k in 1..=3u64 { let mut b = t.create_block(prev, ts + 120000 * k + 1, 0, 0, 0, true).await; b.generate().unwrap(); prev = b.hash; fork.push(b.hash); t.add_block(b).await; }
+            assert_eq!(t.blockchain_lock.read().await.get_latest_block_hash(), b4h, "equal-length fork must not move the tip");
+            // the operator's checkpoint sits on b3 (second block of the segment that would have to be unwound)
+            { let mut bc = t.blockchain_lock.write().await; bc.blocks.get_mut(&main[1]).unwrap().has_checkpoint = true; }
+            let (utxo_before, lc_before) = { let bc = t.blockchain_lock.read().await; (bc.utxoset.iter().filter(|(_, v)| **v).count(), bc.blocks.get(&b4h).unwrap().in_longest_chain) };
+            let mut f5 = t.create_block(prev, ts + 120000 * 4 + 1, 0, 0, 0, true).await; f5.generate().unwrap();
+            let _ = t.add_block(f5).await;
+            let bc = t.blockchain_lock.read().await;
+            let _ = tx_done.send((bc.get_latest_block_hash(), b4h, bc.get_latest_block_id(), 4, bc.blocks.get(&b4h).unwrap().in_longest_chain && lc_before, bc.utxoset.iter().filter(|(_, v)| **v).count(), utxo_before));
+        });
+    });
+    match rx_done.recv_timeout(std::time::Duration::from_secs(40)) {
+        Ok((tip, expected, tip_id, expected_id, still_lc, utxo_after, utxo_before)) => {
+            if tip != expected || tip_id != expected_id || !still_lc || utxo_after != utxo_before {
+                witness(format!("chain b1-b2-b3-b4 (checkpoint flag on b3), fork b1-f2-f3-f4-f5 offered: the reorganisation unwinds b4, refuses to unwind b3 and stops there — afterwards tip id {} (was {}), tip hash {} previous tip, b4 on the longest chain: {}, spendable outputs {} (were {})",
+                    tip_id, expected_id, if tip == expected { "==" } else { "!=" }, still_lc, utxo_after, utxo_before));
+            }
+        }
+        Err(_) => {
+            use std::io::Write;
+            let _ = writeln!(std::io::stderr(), "WITNESS: Blockchain::add_block did not return within 40 s (reorganisation across a checkpoint block)");
+            let _ = writeln!(std::io::stderr(), "test core::consensus::blockchain::verif_replay::reorg_across_a_checkpoint_leaves_no_trace ... FAILED");
             std::process::exit(3);
         }
     }
